@@ -25,6 +25,10 @@ pub enum Op {
     /// clone g; the clone becomes a new live generator that continues on its own
     Clone { g: u8 },
     Drop { g: u8 },
+    /// feed pool[off .. off+total] as consecutive pieces of `chunk` bytes each (many tiny or block-sized pieces in one op)
+    UpdateChunks { g: u8, off: u32, total: u32, chunk: u32 },
+    /// replace generator g by a fresh one (via new() or Default::default())
+    Reset { g: u8, via_default: bool },
 }
 
 #[derive(Clone, Debug, Hash, PartialEq, Eq)]
@@ -44,7 +48,12 @@ fn draw_piece_len(r: &mut Rng, pool: usize) -> u32 {
         8..=47 => r.range(1, 5),
         48..=64 => r.range(6, 16),
         65..=84 => r.range(17, 4096),
-        85..=94 => pool as u64,
+        85..=91 => pool as u64,
+        92..=95 => {
+            // block-size boundaries: 2^k - 1, 2^k, 2^k + 1
+            let k = r.range(4, 21);
+            (1u64 << k) + r.below(3) - 1
+        }
         _ => r.range(1, (pool as u64).max(1)),
     };
     v.min(pool as u64) as u32
@@ -58,6 +67,8 @@ fn kind_code(op: &Op) -> u64 {
         Op::Len { .. } => 4,
         Op::Clone { .. } => 5,
         Op::Drop { .. } => 6,
+        Op::UpdateChunks { .. } => 7,
+        Op::Reset { .. } => 8,
     }
 }
 
@@ -181,6 +192,31 @@ fn run<K: Kind>(h: &Hist, pool: &[u8], st: &mut Stats, fnv: &mut Fnv, states: &m
                     live.remove(i);
                 }
             }
+            Op::UpdateChunks { g, off, total, chunk } => {
+                let i = gi(*g);
+                let off = (*off as usize).min(pool.len());
+                let end = (off + *total as usize).min(pool.len());
+                let c = (*chunk).max(1) as usize;
+                let mut n = 0u64;
+                for piece in pool[off..end].chunks(c) {
+                    live[i].g.update(piece);
+                    n += 1;
+                }
+                live[i].seen.extend_from_slice(&pool[off..end]);
+                st.add("pieces_in_chunked_updates", n);
+                if n >= 256 {
+                    st.hit("probe.ge_256_consecutive_pieces");
+                }
+                states.push((K::ID as u64) << 16 | 0xf << 12 | (c.min(9) as u64) << 8 | prev_kind);
+                let l = &live[i];
+                if l.g.processed_len() != Some(l.seen.len() as u32) {
+                    return mk("processed-len", format!("step {step}: after {} bytes processed_len()={:?}", l.seen.len(), l.g.processed_len()));
+                }
+            }
+            Op::Reset { g, via_default } => {
+                let i = gi(*g);
+                live[i] = Live { g: if *via_default { <K::G as Default>::default() } else { K::new_gen() }, seen: Vec::new() };
+            }
         }
         prev_kind = kind_code(op);
     }
@@ -202,7 +238,7 @@ impl Scenario for C03 {
         "C03"
     }
     fn rule(&self) -> &'static str {
-        "history = (variant, byte pool descriptor, op list over update/finalize/finalize-all/processed_len/clone/drop on up to 6 live generators); \
+        "history = (variant, byte pool descriptor, op list over update / chunked-update (many equal pieces) / finalize / finalize-all / processed_len / clone / drop / reset on up to 6 live generators); \
          distinct = distinct history digests; non-trivial = at least 2 update ops with a non-empty piece and at least one finalize/clone between or after them; \
          states = distinct (variant, tail length before update, min(piece,5), previous op kind)"
     }
@@ -211,7 +247,8 @@ impl Scenario for C03 {
         let len = match r.below(100) {
             0..=69 => draw_small_len(r).min(400),
             70..=91 => draw_small_len(r),
-            92..=97 => r.range(4096, 65536) as usize,
+            92..=95 => r.range(4096, 65536) as usize,
+            96..=97 => *r.pick(&[65535usize, 65536, 65537, 131072, 200_000, 262144 + 5, 524288]),
             _ => r.range(1 << 20, 3 << 20) as usize,
         };
         let len = if crate::data::small() { len.min(300) } else { len };
@@ -239,6 +276,14 @@ impl Scenario for C03 {
                     cursor = 0;
                 }
                 Op::Update { g, off, len: l }
+            } else if x < 73 {
+                let chunk = *r.pick(&[1u32, 1, 1, 2, 3, 4, 5, 7, 16, 64, 4096]);
+                let total = if chunk <= 7 { r.range(1, 700) } else { r.range(1, (len as u64).max(1)) } as u32;
+                let off = if sequential { cursor } else { r.below(len as u64 + 1) as u32 };
+                cursor = (cursor + total).min(len as u32);
+                Op::UpdateChunks { g, off, total, chunk }
+            } else if x < 74 {
+                Op::Reset { g, via_default: r.chance(1, 2) }
             } else if x < 78 {
                 Op::Len { g }
             } else if x < 84 {
@@ -265,7 +310,7 @@ impl Scenario for C03 {
             Ok(v) => v,
             Err(p) => Some(Violation { class: format!("panic:{}", panic_class(&p)), detail: format!("panic: {p}") }),
         };
-        let upd = h.ops.iter().filter(|o| matches!(o, Op::Update { len, .. } if *len > 0)).count();
+        let upd = h.ops.iter().filter(|o| matches!(o, Op::Update { len, .. } if *len > 0) || matches!(o, Op::UpdateChunks { .. })).count();
         let other = h.ops.iter().filter(|o| matches!(o, Op::Finalize { .. } | Op::FinalizeAll { .. } | Op::Clone { .. })).count();
         Outcome { violation, digest: fnv.finish(), nontrivial: upd >= 2 && other >= 1 && h.pool.len() > 0, states }
     }
@@ -310,6 +355,18 @@ impl Scenario for C03 {
                     out.push(c);
                 }
             }
+            if let Op::UpdateChunks { g, off, total, chunk } = op {
+                for nt in [total / 2, total.saturating_sub(1), *chunk * 2] {
+                    if nt < *total {
+                        let mut c = h.clone();
+                        c.ops[i] = Op::UpdateChunks { g: *g, off: *off, total: nt, chunk: *chunk };
+                        out.push(c);
+                    }
+                }
+                let mut c = h.clone();
+                c.ops[i] = Op::Update { g: *g, off: *off, len: *total };
+                out.push(c);
+            }
             if let Op::FinalizeAll { g } = op {
                 for o in [30u8, 0] {
                     let mut c = h.clone();
@@ -336,6 +393,8 @@ impl Scenario for C03 {
                 Op::Len { g } => format!("Len({g})"),
                 Op::Clone { g } => format!("Clone({g})"),
                 Op::Drop { g } => format!("Drop({g})"),
+                Op::UpdateChunks { g, off, total, chunk } => format!("UpdateChunks({g},{off},{total},{chunk})"),
+                Op::Reset { g, via_default } => format!("Reset({g},{})", *via_default as u8),
             })
             .collect();
         json!({"variant": VARIANT_NAMES[h.variant as usize], "variant_id": h.variant, "pool": h.pool.to_json(), "ops": ops,
@@ -377,6 +436,14 @@ impl Scenario for C03 {
                 "Drop" => {
                     need(1)?;
                     Op::Drop { g: args[0] as u8 }
+                }
+                "UpdateChunks" => {
+                    need(4)?;
+                    Op::UpdateChunks { g: args[0] as u8, off: args[1], total: args[2], chunk: args[3] }
+                }
+                "Reset" => {
+                    need(2)?;
+                    Op::Reset { g: args[0] as u8, via_default: args[1] != 0 }
                 }
                 _ => return Err(format!("unknown op {s}")),
             });
